@@ -209,6 +209,7 @@ func check(p program, r *drv.Result) string {
 	ref.trace(0, &want)
 	rec := &recorder{failAt: -1}
 	r.Evaluations++
+	drv.Tick()
 	if err := apply(m, rec); err != nil {
 		return fmt.Sprintf("visit returned %v although no callback failed", err)
 	}
@@ -237,6 +238,7 @@ func check(p program, r *drv.Result) string {
 		m2, _, _ := p.build()
 		rec2 := &recorder{failAt: pos}
 		r.Evaluations++
+		drv.Tick()
 		err := apply(m2, rec2)
 		if err != errAt {
 			return fmt.Sprintf("visitor failing at callback #%d (%s): Apply returned %v, want that very error", pos, want[pos], err)
